@@ -242,14 +242,30 @@ pub fn record_run<T: Sc>(rs: &RunSpec<T>) -> RunOut {
                 if with_stats {
                     let o = prob.fit_stats(&cfg, &[0.9], &[]).expect("single rhs");
                     let sok = o.stats.is_some();
-                    (o.fit, Some(sok))
+                    // C12: the defining identities, whatever the fit looked like (truncated solves included):
+                    // the reported weighted residuals are the final residuals, chi2 (N-M-P) = |r_w|^2, sigma^2 = chi2
+                    let identity = match (&o.stats, &o.fit.fin.residuals) {
+                        (Some(st), Some(r)) => {
+                            let tol = if T::NAME == "f64" { 1e-9 } else { 1e-3 };
+                            let dof = n as f64 - m as f64 - p as f64;
+                            let ss: f64 = st.wres.iter().map(|v| v.to64() * v.to64()).sum();
+                            let same = st.wres.len() == r.len() && st.wres.iter().zip(r.iter()).all(|(a, b)| a.bits() == b.bits() || (a.to64() - b.to64()).abs() <= tol * a.to64().abs().max(b.to64().abs()));
+                            let chi = st.chi2.to64();
+                            let rse = st.rse.to64();
+                            !ss.is_finite()
+                                || (same && dof > 0.0 && (chi * dof - ss).abs() <= tol * ss.max(1e-300) && (rse * rse - chi).abs() <= tol * chi.abs().max(1e-300))
+                        }
+                        (Some(_), None) => false,
+                        _ => true,
+                    };
+                    (o.fit, Some(sok), identity)
                 } else {
-                    (prob.fit(&cfg), None)
+                    (prob.fit(&cfg), None, true)
                 }
             })
         }));
         drain(&mut items, &mut taken);
-        let (fo, sok) = match fitted {
+        let (fo, sok, ident) = match fitted {
             Err(_) => {
                 items.push(Item::Marker("Panic".into(), json!({"where": "fit"}), None));
                 let calls = log.lock().unwrap().calls;
@@ -276,6 +292,7 @@ pub fn record_run<T: Sc>(rs: &RunSpec<T>) -> RunOut {
         fields["coherent"] = json!(coherent(rs, &fo));
         let name = if let Some(s) = sok {
             fields["sok"] = json!(s);
+            fields["identity"] = json!(ident);
             "StatsEnd"
         } else {
             "FitEnd"
@@ -877,6 +894,10 @@ fn gen_and_record<T: Sc>(mode: &str, count: usize, rng: &mut StdRng) -> Vec<RunO
                     base.cfg.patience = 5;
                 }
                 base.with_stats = !base.mrhs && i % 2 == 0;
+                if base.with_stats && i % 4 == 0 && poly_is_family(&base.fam) {
+                    // statistics of a fit with a regularising threshold (truncated solves)
+                    base.eps = Some(T::of64(0.3));
+                }
                 if i % 3 == 1 {
                     // a fit that succeeds, so that the statistics phase is really entered: certified
                     // regime, single right hand side, default optimizer
